@@ -13,6 +13,7 @@ from mpmath import mpf
 from .. import catalog as C
 from .. import engine as E
 from .. import gen
+from .. import knownmech
 from .. import refmodel as R
 from .. import tap
 from .. import workload as W
@@ -162,12 +163,12 @@ def run_shard(spec, tier, seed):
                         err = E.rel_error(op, got, exp.rv, unit, gain)
                 else:
                     err = E.rel_error(op, got, exp, unit, gain)
-                if err > VIOLATE and op.name in ("Mt2", "mt2", "transverse_mass2") and self_l.system[2] == "tau" \
-                        and draw.self_rv.Mt2 < 0 and got == 0:
-                    # known finding: the tau-stored variants clamp t^2 - z^2 at zero, the t-stored ones do not
-                    res.violation("C01/mt2-clamped-at-zero-for-tau-storage",
-                                  {"cell": cellkey, "self": self_l.describe(), "got": _show(got), "cartesian": _show(exp)})
-                    continue
+                if err > VIOLATE:
+                    km = knownmech.classify(op, self_l, args, got_scalar_is_zero=(op.result != "vec" and got == 0))
+                    if km:
+                        res.violation("C01/" + km, {"cell": cellkey, "self": self_l.describe(),
+                                                    "got": _show(got), "cartesian": _show(exp)})
+                        continue
                 res.err(op.group, err)
                 if err > VIOLATE:
                     res.violation(f"C01/value-differs op={op.name} dim={dim}",
